@@ -104,8 +104,21 @@ fn run(d: Box<dyn util::Domain>, req: &str, out: &str, oracle_out: &str) -> i32 
         });
     }
 
+    // progress marker: the number of the request being executed, rewritten in place before every
+    // request, so that a process abort (non-unwinding panic, allocation failure, signal) can be
+    // attributed to a request by the check script
+    let progress = fs::OpenOptions::new()
+        .create(true)
+        .write(true)
+        .truncate(true)
+        .open(format!("{}.progress", oracle_out))
+        .expect("create progress");
     for (i, line) in input.lines().enumerate() {
         let line = line.expect("read");
+        {
+            use std::os::unix::fs::FileExt;
+            let _ = progress.write_at(format!("{:<12}", i + 1).as_bytes(), 0);
+        }
         let toks: Vec<&str> = line.split_ascii_whitespace().collect();
         if toks.is_empty() {
             continue;
